@@ -165,21 +165,41 @@ def flat_consts(k, acc=None):
 
 
 # ---------------------------------------------------------------------------------------------- queries (testing only)
-QUERIES = [
-    "A[] a < 5", "E<> a == 1 && b > 2", "A<> p imply q", "E[] not p", "a > 1 --> b < 2", "A[] (a + b) * c <= 7 or p",
-    "sup: a", "inf: a, b", "sup{a > 0}: b", "inf{p}: a + b", "bounds: a", "bounds{p}: a",
-    "Pr[<=10](<> a > 3)", "Pr[<=10]([] a < 3)", "Pr[#<=20](<> p)", "Pr[cl<=5](<> p)",
-    "Pr[<=10](<> a > 3) >= 0.5", "Pr[<=10]([] a > 3) <= 0.25", "Pr[<=10](<> p) >= Pr[<=5](<> q)",
-    "E[<=10; 20](max: a)", "E[<=10; 20](min: a + b)", "E[#<=10; 5](max: a)",
-    "simulate[<=10]{a, b}", "simulate[<=10; 5]{a}", "simulate[#<=7]{a + 1, p}", "simulate[<=10; 5]{a} : 2 : a > 3",
-    "control: A[] a < 5", "control: A<> p", "control: A[p U q]", "control: A[p W q]", "E<> control: A[] p",
-    "control_t*(2, 3): A<> p", "control_t*(3): A<> p", "control_t*: A<> p", "{a, b} control: A[] p",
-    "minE(a)[<=10] : <> p", "maxE(a + b)[<=10] : <> p", "minE(a)[#<=10] : <> p", "maxE(a)[<=10] {a} -> {x} : <> p",
-    "minPr[<=10] : <> p", "maxPr[<=10] : [] p",
-    "strategy S1 = control: A[] a < 5", "saveStrategy(\"f.json\", S1)", "strategy S2 = loadStrategy{a}->{x}(\"f.json\")",
-    "A[] forall (i : int[0,3]) arr[i] >= 0", "E<> exists (i : int[0,3]) arr[i] == 1", "A[] sum (i : int[0,3]) arr[i] < 10",
-    "A[] P.s0", "E<> P.s0 && a == 1", "A[] not deadlock", "E<> deadlock",
+QUERY_TEMPLATES = [
+    "A[] {B1}", "E<> {B1}", "A<> {B1}", "E[] {B1}", "{B1} --> {B2}", "A[] {B1} or {B2}",
+    "sup: {I1}", "inf: {I1}, {I2}", "sup{{{B1}}}: {I1}", "inf{{{B1}}}: {I1}", "bounds: {I1}", "bounds{{{B1}}}: {I1}, {I2}",
+    "Pr[<={N1}](<> {B1})", "Pr[<={N1}]([] {B1})", "Pr[#<={N1}](<> {B1})", "Pr[cl<={N1}](<> {B1})", "Pr[<={N1}; {N2}](<> {B1})",
+    "Pr[<={N1}]({B1} U {B2})", "Pr[#<={N1}]({B1} U {B2})",
+    "Pr[<={N1}](<> {B1}) >= {F}", "Pr[<={N1}]([] {B1}) >= {F}", "Pr[<={N1}](<> {B1}) <= {F}", "Pr[<={N1}]([] {B1}) <= {F}",
+    "Pr[<={N1}](<> {B1}) >= Pr[<={N2}](<> {B2})", "Pr[<={N1}]([] {B1}) >= Pr[#<={N2}](<> {B2})",
+    "E[<={N1}; {N2}](max: {I1})", "E[<={N1}; {N2}](min: {I1})", "E[#<={N1}; {N2}](max: {I1})", "E[<={N1}](max: {I1})", "E[cl<={N1}; {N2}](min: {I1})",
+    "simulate[<={N1}]{{{I1}, {I2}}}", "simulate[<={N1}; {N2}]{{{I1}}}", "simulate[#<={N1}]{{{I1}, {B1}}}",
+    "simulate[<={N1}; {N2}]{{{I1}}} : {N3} : {B1}", "simulate[<={N1}; {N2}]{{{I1}, {I2}}} : {B1}",
+    "control: A[] {B1}", "control: A<> {B1}", "control: A[{B1} U {B2}]", "control: A[{B1} W {B2}]", "E<> control: A[] {B1}",
+    "control_t*({N1}, {N2}): A<> {B1}", "control_t*({N1}): A<> {B1}", "control_t*: A<> {B1}", "{{{I1}, {I2}}} control: A[] {B1}",
+    "control_t*({N1}, {N2}): A[{B1} U {B2}]",
+    "minE({I1})[<={N1}] : <> {B1}", "maxE({I1})[<={N1}] : <> {B1}", "minE({I1})[#<={N1}] : <> {B1}", "maxE({I1})[<={N1}] {{a}} -> {{x}} : <> {B1}",
+    "minPr[<={N1}] : <> {B1}", "maxPr[<={N1}] : <> {B1}",
+    "strategy S1 = control: A[] {B1}", "saveStrategy(\"f.json\", S1)", "strategy S2 = loadStrategy{{a}}->{{x}}(\"f.json\")",
+    "E<> {B1} under S1", "Pr[<={N1}](<> {B1}) under S1",
+    "A[] forall (i : int[0,3]) arr[i] >= {I1}", "E<> exists (i : int[0,3]) arr[i] == {I1}", "A[] sum (i : int[0,3]) arr[i] < {I1}",
+    "A[] P.s0 imply {B1}", "E<> P.s0 && {B1}", "A[] not deadlock", "E<> deadlock && {B1}",
 ]
+
+
+def make_queries(ctx, tgen):
+    """fill the query templates with distinct, accepted sub-expressions so that swapped or dropped operands are visible"""
+    r = ctx.rng
+    out = []
+    reps = 4 if not ctx.thorough else 60
+    for t in QUERY_TEMPLATES:
+        for _ in range(reps):
+            ints = r.sample(["a", "b", "c", "d", "e", "a + b", "c * d", "e - 1", "arr[1]", "a + 2 * b", "(c + d) * e", "-a", "b % 3 + 1"], 2)
+            bools = r.sample(["p", "q", "a < b", "c >= 2", "d == e", "p && a > 1", "q || b < 3", "!(p && q)", "a + b <= c", "e != 0"], 2)
+            n1, n2, n3 = r.sample(range(2, 60), 3)
+            f = r.choice(["0.5", "0.25", "0.75", "0.125", "0.9"])
+            out.append(t.format(B1=bools[0], B2=bools[1], I1=ints[0], I2=ints[1], N1=n1, N2=n2, N3=n3, F=f))
+    return out
 
 
 # ---------------------------------------------------------------------------------------------- the check
@@ -290,6 +310,7 @@ def run(ctx):
         sx = conv.conv(kt) if conv else None
         cases.append(dict(text=text, k=k, kt=kt, s1=s1, k2=k2, eq=(eq == "equal"), s2=s2, typeok=(typeok == "typeok"), sexp=sx,
                           lossy=bool(conv and conv.lossy)))
+    cases.sort(key=lambda c: (len(c["text"].split()), c["text"]))      # smallest witness first: it becomes the replay
     inmodel = [c for c in cases if c["sexp"] is not None]
     rc, cout, err = c02.run_lines(drv3, ["C\t%s\t%s" % (c["sexp"], c["s1"]) for c in inmodel])
     stats = dict(cases=len(cases), in_model=len(inmodel), accepted_by_typechecker=sum(1 for c in cases if c["typeok"]),
@@ -371,8 +392,9 @@ def run(ctx):
 
 def run_queries(ctx, b):
     har = core.build_harness(b, "c03q", ["c03q.cpp"])
+    QUERIES = make_queries(ctx, None)
     rc, out, err = c02.run_lines(har, QUERIES)
-    st = dict(queries=len(QUERIES), parsed=0, roundtrip_ok=0)
+    st = dict(queries=len(QUERIES), templates=len(QUERY_TEMPLATES), parsed=0, roundtrip_ok=0, rejected_templates=[])
     if rc != 0 or len(out) != len(QUERIES):
         bad = QUERIES[len(out)] if len(out) < len(QUERIES) else "?"
         ctx.finding("crash:query-str", "the library died while printing / re-parsing the query %r" % bad, {"query": bad, "stderr": err[-3000:]})
@@ -380,11 +402,16 @@ def run_queries(ctx, b):
     for q, line in zip(QUERIES, out):
         f = line.split("\t")
         if f[0] != "OK":
+            st["rejected_templates"] = sorted(set(st["rejected_templates"] + [q.split("(")[0].split("[")[0][:24]]))[:20]
             continue             # not accepted by the query parser in this scope: outside the property's quantifier
         st["parsed"] += 1
         kind, s1, status, s2 = f[1], f[2], f[3], f[4] if len(f) > 4 else ""
         if status == "equal" and s1 == s2:
             st["roundtrip_ok"] += 1
+        elif status == "notequal" and s1 == s2 and re.search(r"[0-9]\.[0-9]", s1):
+            # the two trees print identically but differ: a double constant that its 6-digit text does not determine
+            ctx.finding("literal:double-printed-with-6-digits", "query %r: str() gives %r, whose double constant re-parses to another value" % (q, s1),
+                        {"query": q, "str": s1, "status": status})
         elif re.search(r"\b(forall|exists|sum)\(\w+:\(", s1):
             ctx.finding("binder:quantifier-type-printed-with-type_t::str", "query %r: str() gives %r" % (q, s1), {"query": q, "str": s1, "status": status})
         else:
